@@ -8,23 +8,23 @@ TECH = "bounded model checking of the real code: Kani 0.68 -> CBMC 6.11 (cadical
 
 CLAIMED = {
  "C15": dict(
-   text="A generic contract Gc<A,B,V,R,U,W> (A used directly, B only inside Option, V only inside Vec, R only as a query response, U unused, W under a where-bound relating it to A) and an interface with associated types are expanded by the real macros; the harness crate NAMES each generated type with exactly the expected parameters (ExecMsg<A,B,V>, QueryMsg<R>, SudoMsg<W>, InstantiateMsg, IfgExecMsg<T1>, IfgQueryMsg<T2>) and equates them with the ContractApi aliases (compile gate), and CBMC decides differentially against a non-generic twin, over symbolic values: same serde events, same accepted names (phantom placeholder never accepted), same decode verdict and value, same handler and argument on dispatch (including the interface arm).",
+   text="A generic contract Gc<A,B,V,R,U,W> (A used directly and AGAIN after B and V -- so a de-duplication that only looks at adjacent uses shows up --, B only inside Option, V only inside Vec, R only as a query response, U unused, W under a where-bound relating it to A) and an interface with associated types are expanded by the real macros; the harness crate NAMES each generated type with exactly the expected parameters (ExecMsg<A,B,V>, QueryMsg<R>, SudoMsg<W>, InstantiateMsg, IfgExecMsg<T1>, IfgQueryMsg<T2>) and equates them with the ContractApi aliases (compile gate), and CBMC decides differentially against a non-generic twin, over symbolic values: same serde events, same accepted names (phantom placeholder never accepted), same decode verdict and value, same handler and argument on dispatch (including the interface arm).",
    note="the parameter lists / where-clauses themselves are token-level facts decided only through the compile gate; one instantiation; program dimension sampled by one generic contract + one interface",
    ref="§3 C15"),
  "C14": dict(
-   text="The same program is expanded by the real macros in three declaration orders (methods of the impl, methods of the interface trait, #[sv::messages] and #[sv::override_entry_point] attributes permuted: written, reversed, rotated). CBMC decides differentially, over symbolic inputs: published name lists identical; every received 2-byte name accepted by the same message types; equal messages serialise to equal events; the same exec/sudo/instantiate/migrate message through each twin's entry point runs the same handler with the same arguments and outcome; a reply for a shared handler name (success method with #[sv::data] + error method, in either order) and for a solo name reaches the same method with the same arguments (only id constants differ). That every order is ACCEPTED with the same set of entry points is the compile gate -- it found the data-parameter merge defect (fixed).",
+   text="The same program is expanded by the real macros in three declaration orders (methods of the impl, methods of the interface trait, #[sv::messages] and #[sv::override_entry_point] attributes permuted: written, reversed, rotated). CBMC decides differentially, over symbolic inputs: published name lists identical; every received 2-byte name accepted by the same message types; equal messages serialise to equal events; the same exec/sudo/instantiate/migrate message through each twin's entry point runs the same handler with the same arguments and outcome; a reply for a shared handler name (success method with #[sv::data] + error method, in either order) and for a solo name reaches the same method with the same arguments (only id constants differ). That every order is ACCEPTED with the same set of entry points is the compile gate (which also builds the generic corpus contract) -- it found the data-parameter merge defect (fixed).",
    note="3 of n! permutations sampled; query results compared per order in C02 only; stubs: Backtrace::capture, fmt::format",
    ref="§3 C14"),
  "C17": dict(
-   text="CBMC decides, through the derived (de)serialisers of corpus `attrs`: #[sv::msg_attr(kind, serde(deny_unknown_fields))] forwarded to exec and migrate (contract) and to query (interface) makes exactly those three of seven generated types reject a body with an unknown key (symbolic values); #[sv::attr(serde(rename=\"zz\"))] on one handler makes exactly that variant answer to `zz` (received names of length 2..5 with symbolic bytes: accepted set = {zz, args, other}; `ren` is not accepted) and serialise under it; #[serde(default)] / #[serde(rename=\"k\")] written on handler arguments make that field optional / keyed `k` (6 body layouts, symbolic values).",
+   text="CBMC decides, through the derived (de)serialisers of corpus `attrs`: #[sv::msg_attr(kind, serde(deny_unknown_fields))] forwarded to exec and migrate (contract) and to query (interface) makes exactly those three of seven generated types reject a body with an unknown key (symbolic values); #[sv::attr(serde(rename=\"zz\"))] on one handler makes exactly that variant answer to `zz` (received names of length 2..5 with symbolic bytes: accepted set = {zz, args, other}; `ren` is not accepted) and serialise under it; #[serde(default)] / #[serde(rename=\"k\")] written on handler arguments -- also wrapped in #[cfg_attr(.., serde(default))] -- make that field optional / keyed `k` (body layouts with symbolic values).",
    note="attributes without run-time effect (derives, docs) are token-level facts outside the claim; contract-level routing of a variant renamed through sv::attr is outside (the published list keeps the method name; see DESIGN §6); JSON text layer outside",
    ref="§3 C17"),
  "C10": dict(
-   text="CBMC decides, for every generated Executor helper of corpus `basic` (5 contract methods through a contract-typed handle; interface methods through dyn-Interface and contract-typed handles) with ALL argument values symbolic: the helper yields an execute message addressed to the handle's address, carrying the funds set on the builder (symbolic amount), whose body is -- at the serde data-model level, recorded by replacing to_json_binary -- exactly the message {method: {args}} of that same method (C01 oracle), whose name is in the target's published list (routable, C03); the generated instantiate helper + InstantiateBuilder give code id, flat arguments, admin, label (empty when unset) and funds; Remote::executor / update_admin / clear_admin keep the (symbolic) address.",
-   note="JSON text of the body outside (to_json_binary intercepted by the facade); the QUERY helper is outside (QuerierWrapper serialises / parses text: DESIGN P5); build2 (feature cosmwasm_1_2) outside; address content is symbolic on Remote->builder and builder->message but concrete through the generated helper (read-back does not finish); program dimension sampled",
+   text="CBMC decides, for every generated Executor helper of corpus `basic` (5 contract methods through a contract-typed handle; interface methods through dyn-Interface and contract-typed handles) with ALL argument values symbolic: the helper yields an execute message addressed to the handle's address, carrying the funds set on the builder (symbolic amount), whose body is -- at the serde data-model level, recorded by replacing to_json_binary -- exactly the message {method: {args}} of that same method (C01 oracle), whose name is in the target's published list (routable, C03); the generated instantiate helper + InstantiateBuilder give code id, flat arguments, admin, label (empty when unset) and funds, and with a salt (2 symbolic bytes, and the EMPTY salt) the instantiate2 message carrying that salt; Remote::executor / update_admin / clear_admin keep the (symbolic) address.",
+   note="JSON text of the body outside (to_json_binary intercepted by the facade); the QUERY helper is outside (QuerierWrapper serialises / parses text: DESIGN P5); address content is symbolic on Remote->builder and builder->message but concrete through the generated helper (read-back does not finish); program dimension sampled",
    ref="§3 C10"),
  "C20": dict(
-   text="CBMC decides, for Remote<'_, T> with T in {two corpus contracts, dyn Interface<Error=..> of two interfaces, ()}, owned and borrowed, address bytes symbolic at lengths 0,1,3,4: the recorded serde events are exactly the struct {addr: <address string>} for every parameterisation; {addr: s} (also with an extra member) decodes to a handle whose address is s, while a missing, duplicated or non-string addr is an error; decode->encode round trip; schema_name is `Remote` for all T.",
+   text="CBMC decides, for Remote<'_, T> with T in {two corpus contracts, dyn Interface<Error=..> of two interfaces, ()}, owned and borrowed, address bytes symbolic at lengths 0,1,3,4: the recorded serde events are exactly the struct {addr: <address string>} for every parameterisation; {addr: s} (also with an extra member) decodes to a handle whose address is s, while a missing, duplicated or non-string addr is an error; decode->encode round trip; schema_name is `Remote` for all T (harness, plus a native input-free fact over 5 parameterisations incl. nested generics, labelled not solver-derived).",
    note="JSON text layer and schema body outside; addresses <= 4 bytes; trusted: Kani/CBMC/cadical, support drivers",
    ref="§3 C20"),
  "C06": dict(
@@ -32,7 +32,7 @@ CLAIMED = {
    note="presence/absence is a compile-gate fact (not solver-derived); 10 of the 2^6 x 2 x 2 configurations are sampled; generic #[entry_points(generics<..>)] and the legacy reply entry point are outside; stubs: Backtrace::capture, fmt::format",
    ref="§3 C06"),
  "C04": dict(
-   text="CBMC decides, for the real #[entry_points] expansion of corpus `basic` (19 handlers in 5 kinds, wire name `tick{n}` present as exec, query AND sudo, instantiate and migrate sharing their argument names): every well-formed message of kind K1 (symbolic choice and argument values), decoded by the real contract-level message of kind K2 != K1 and, when accepted, pushed through entry_points::<K2> with echo handlers, never runs a handler annotated with another kind; it is rejected unless K2 itself has a message of that name/shape, in which case K2's OWN handler runs. One harness per ordered pair of kinds. The MULTITEST path is decided too: the generated `impl cw_multi_test::Contract` (execute/instantiate/query/sudo/migrate) of a contract without migrate handler and of `basic`, with from_json replaced by a serde-doc decoder, accepts on each operation exactly the messages of its own kind.",
+   text="CBMC decides, for the real #[entry_points] expansion of corpus `basic` (19 handlers in 5 kinds, wire name `tick{n}` present as exec, query AND sudo, instantiate and migrate sharing their argument names): every well-formed message of kind K1 (symbolic choice and argument values), decoded by the real contract-level message of kind K2 != K1 and, when accepted, pushed through entry_points::<K2> with echo handlers, never runs a handler annotated with another kind; it is rejected unless K2 itself has a message of that name/shape, in which case K2's OWN handler runs. One harness per ordered pair of kinds; the compile gate additionally builds corpus `names` (identifiers with leading/trailing/double underscores and digits) with typed references to its entry points. The MULTITEST path is decided too: the generated `impl cw_multi_test::Contract` (execute/instantiate/query/sudo/migrate) of a contract without migrate handler and of `basic`, with from_json replaced by a serde-doc decoder, accepts on each operation exactly the messages of its own kind.",
    note="facade container model (validated by a native pre-flight against the real container); JSON text layer outside on both paths (multitest: sylvia::cw_std::from_json replaced by the facade, feature mt_docs); the reply kind and the cw-multi-test App around the Contract impl are outside; error text stubbed; program dimension sampled by one contract + 2 interfaces",
    ref="§3 C04"),
  "C03": dict(
